@@ -458,4 +458,53 @@ class NamesOfEarlierImports(object):
                             vs.append(('%s|reference-names-another-module' % sig, '%s.%s: %r' % (name, call, a)))
         return 'ok', vs, len(case['plan'])
 
-FAMILIES = [Tables(), Lists(), Compliance(), ImportSpellings(), NamesOfEarlierImports()]
+class ShippedTemplates(object):
+    name = 'shipped-instrumentation-template'
+    describe = ('the template the package ships for MIB instrumentation (pysnmp/mib-instrumentation/managed-objects.j2, which extends '
+                'the stock one) given as dstTemplate: table, row, columns (1-3, index first / last) and a scalar, in 3 declaration '
+                'orders: the object made for each OBJECT-TYPE derives from the pysnmp class of its node type')
+
+    def blocks(self, tier):
+        return [{}]
+
+    def cases(self, block, tier):
+        for ncols in (1, 2, 3):
+            for order in ('top-down', 'bottom-up', 'sequence-first'):
+                yield {'ncols': ncols, 'order': order}
+
+    def run_case(self, case):
+        import os
+        import pysmi.codegen
+        tmpl = os.path.join(os.path.dirname(pysmi.codegen.__file__), 'templates', 'pysnmp', 'mib-instrumentation', 'managed-objects.j2')
+        cols = ['aCol%d' % i for i in range(case['ncols'])]
+        decl = {
+            'scalar': 'aScalar OBJECT-TYPE SYNTAX Integer32 MAX-ACCESS read-write STATUS current DESCRIPTION "d" ::= { enterprises 1 }\n',
+            'table': 'aTable OBJECT-TYPE SYNTAX SEQUENCE OF AEntry MAX-ACCESS not-accessible STATUS current DESCRIPTION "d" ::= { enterprises 2 }\n',
+            'row': 'aEntry OBJECT-TYPE SYNTAX AEntry MAX-ACCESS not-accessible STATUS current DESCRIPTION "d" INDEX { %s } ::= { aTable 1 }\n' % cols[-1],
+            'seq': 'AEntry ::= SEQUENCE { %s }\n' % ', '.join('%s Integer32' % c for c in cols),
+        }
+        for i, c in enumerate(cols):
+            decl[c] = '%s OBJECT-TYPE SYNTAX Integer32 MAX-ACCESS read-write STATUS current DESCRIPTION "d" ::= { aEntry %d }\n' % (c, i + 1)
+        seq = {'top-down': ['scalar', 'table', 'row', 'seq'] + cols, 'bottom-up': cols[::-1] + ['seq', 'row', 'table', 'scalar'],
+               'sequence-first': ['seq'] + cols + ['scalar', 'row', 'table']}[case['order']]
+        text = 'TEST-MIB DEFINITIONS ::= BEGIN\nIMPORTS enterprises, OBJECT-TYPE, Integer32 FROM SNMPv2-SMI;\n' + \
+            ''.join(decl[k] for k in seq) + 'END\n'
+        res, written = env.compile_set({'TEST-MIB': text}, ['TEST-MIB'], codegen='pysnmp', dstTemplate=tmpl)
+        sig = 'C06|shipped-template|managed-objects'
+        if res.get('TEST-MIB') != 'compiled':
+            return 'failed', [('%s|not-compiled' % sig, '%r\n%s' % (getattr(res.get('TEST-MIB'), 'error', None), text))], 1
+        ns, err = pysnmp_rec.run_module(written['TEST-MIB'], pysnmp_rec.RecBuilder())
+        if err:
+            return 'noexec', [('%s|does-not-execute|%s' % (sig, err.split(':')[0]), '%s\n%s' % (err, text))], 1
+        vs = []
+        want = dict([('aScalar', 'MibScalar'), ('aTable', 'MibTable'), ('aEntry', 'MibTableRow')] + [(c, 'MibTableColumn') for c in cols])
+        for sym, cls in sorted(want.items()):
+            mro = [b.__name__ for b in type(ns.get(sym)).__mro__]
+            kinds = [b for b in mro if b in ('MibScalar', 'MibTable', 'MibTableRow', 'MibTableColumn')]
+            if kinds[:1] != [cls]:
+                vs.append(('%s|%s-made-a-%s' % (sig, {'aScalar': 'scalar', 'aTable': 'table', 'aEntry': 'row'}.get(sym, 'column'),
+                                                 (kinds or ['?'])[0]), '%s: %r\n%s' % (sym, mro, text)))
+        return 'ok', vs, 1
+
+
+FAMILIES = [Tables(), Lists(), Compliance(), ImportSpellings(), NamesOfEarlierImports(), ShippedTemplates()]
